@@ -266,66 +266,62 @@ class SymCtx:
         full = list(eng.axioms) + list(eng.pc)
         lin = [l for l in full if is_linear(l)]
         attempts = []
-        goals = [('exact', g)]
-        if eq_terms is not None and has_symbolic_division(g):
-            n, d = to_fraction(z3.simplify(eq_terms[0] - eq_terms[1]))
-            goals.append(('cleared', n == 0))
+        goals = []
+        if eq_terms is not None and (has_symbolic_division(g) or has_symbolic_division(eq_terms[0] - eq_terms[1])):
+            n, d = to_fraction(eq_terms[0] - eq_terms[1])
+            n0 = z3.simplify(n, som=True)
+            goals.append(('cleared', z3.simplify(n0 == 0)))
+        goals.append(('exact', g))
         if fallback is not None:
             goals.append(('tol', z3.simplify(fallback)))
-        last_model = None
-        last_goal = None
-        for gname, gg in goals:
-            if z3.is_true(gg):
-                rec.discharged += 1
-                rec.by['simplify:' + gname] = rec.by.get('simplify:' + gname, 0) + 1
-                return
-            ng = z3.Not(gg)
-            for lname, hyps in (('lin', lin), ('full', full)):
-                if lname == 'full' and len(lin) == len(full):
-                    continue
-                r, m = self._solve(hyps, ng)
-                attempts.append(f'{gname}/{lname}:{r}')
-                if r == 'unsat':
+        final_name = goals[-1][0]
+        cand_model = None
+        cand_goal = None
+        for mult in (1, 8):
+            for gname, gg in goals:
+                if z3.is_true(gg):
                     rec.discharged += 1
-                    k = f'{gname}/{lname}'
-                    rec.by[k] = rec.by.get(k, 0) + 1
-                    if rec.sample is None:
-                        rec.sample = {'check': rec.name, 'goal': _short(gg), 'context': lname,
-                                      'hyps': len(hyps), 'result': 'unsat'}
+                    rec.by['simplify:' + gname] = rec.by.get('simplify:' + gname, 0) + 1
                     return
-                if r == 'sat':
-                    if lname == 'full' or self._model_ok(m, full):
+                if mult > 1 and gname != final_name and not (gname == 'cleared' and fallback is None):
+                    continue
+                ng = z3.Not(gg)
+                for lname, hyps in (('lin', lin), ('full', full)):
+                    if lname == 'full' and len(lin) == len(full):
+                        continue
+                    if mult > 1 and lname == 'lin':
+                        continue
+                    r, m = self._solve(hyps, ng, rl_mult=mult)
+                    attempts.append(f'{gname}/{lname}{"*8" if mult > 1 else ""}:{r}')
+                    if r == 'unsat':
+                        rec.discharged += 1
+                        k = f'{gname}/{lname}'
+                        rec.by[k] = rec.by.get(k, 0) + 1
+                        if rec.sample is None:
+                            rec.sample = {'check': rec.name, 'goal': _short(gg), 'context': lname,
+                                          'hyps': len(hyps), 'result': 'unsat'}
+                        return
+                    if r == 'sat' and (lname == 'full' or self._model_ok(m, full)):
                         if gname == 'cleared':
-                            # a model of the cleared form may sit on a vanishing denominator
+                            # a model of the cleared form may sit on a vanishing denominator: confirm on the original
                             if not z3.is_false(m.eval(g, model_completion=True)):
                                 continue
-                        last_model, last_goal = m, gg
+                        if gname == final_name or (fallback is None):
+                            cand_model, cand_goal = m, gg
+                            break
+                        # exact equality fails but a tolerance is allowed: go on to the tolerance goal
                         break
-            if last_model is not None and (gname == 'tol' or fallback is None or gname == goals[-1][0]):
+                if cand_model is not None:
+                    break
+            if cand_model is not None:
                 break
-            if last_model is not None and gname != 'tol' and fallback is not None:
-                # exact equality fails but a tolerance is allowed: go on to the tolerance goal
-                last_model = None
-                continue
-        if last_model is None:
-            # one retry with a 10x budget on the strongest formulation before giving up
-            gname, gg = goals[-1]
-            r, m = self._solve(full, z3.Not(gg), rl_mult=10)
-            attempts.append(f'{gname}/full*10:{r}')
-            if r == 'unsat':
-                rec.discharged += 1
-                rec.by[f'{gname}/full*10'] = rec.by.get(f'{gname}/full*10', 0) + 1
-                return
-            if r == 'sat':
-                last_model, last_goal = m, gg
-        if last_model is None:
+        if cand_model is None:
             rec.undecided += 1
             if len(self.undecided) < 20:
                 self.undecided.append({'check': rec.name, 'goal': _short(g), 'attempts': attempts,
                                        'decisions': len(eng.decisions), 'info': info})
             return
-        # candidate(s): walk past known findings
-        self._candidates(rec, last_goal, full, last_model, info)
+        self._candidates(rec, cand_goal, full, cand_model, info)
 
     def _inputs_of(self, m) -> Dict[str, Any]:
         out = {}
